@@ -68,30 +68,52 @@ theorem auth_sound {w : World} {cid : Nat} {req : Req}
 belongs to the mapping it presented credentials for. -/
 theorem passed_of_not_refused_dyn {w : World} {id : ConnIdent} {req : Req} {ts : TunnelState} {late : Late}
     (h : openTunnelDyn w id req ts late ≠ refuse) :
-    id.hasControl = true ∧ handleTunnelOpenAuth w id.clientID req = true ∧ tunnelMappingID req ts = req.MappingID := by
-  unfold openTunnelDyn findControlConnection at h
+    ∃ cc, findControlConnection id = some cc ∧ handleTunnelOpenAuth w cc.clientID req = true ∧
+      tunnelMappingID req ts = req.MappingID := by
+  unfold openTunnelDyn at h
   by_cases hw : req.wellFormed = true
-  · by_cases hc : id.hasControl = true
-    · by_cases ha : handleTunnelOpenAuth w id.clientID req = true
-      · refine ⟨hc, ha, ?_⟩
+  · cases hf : findControlConnection id with
+    | none => simp [hw, hf] at h
+    | some cc =>
+      by_cases ha : handleTunnelOpenAuth w cc.clientID req = true
+      · refine ⟨cc, rfl, ha, ?_⟩
         cases ts with
         | none => rfl
         | bridge m sv =>
           by_cases hm : m = req.MappingID
           · simpa [tunnelMappingID] using hm
-          · simp [hw, hc, ha, hm] at h
+          · simp [hw, hf, ha, hm] at h
         | remote m n =>
           by_cases hm : m = req.MappingID
           · simpa [tunnelMappingID] using hm
-          · simp [hw, hc, ha, hm] at h
-      · simp [hw, hc, ha] at h
-    · simp [hw, hc] at h
+          · simp [hw, hf, ha, hm] at h
+      · simp [hw, hf, ha] at h
   · simp [hw] at h
 
 theorem passed_of_not_refused {w : World} {id : ConnIdent} {req : Req} {ts : TunnelState}
     (h : openTunnel w id req ts ≠ refuse) :
-    id.hasControl = true ∧ handleTunnelOpenAuth w id.clientID req = true ∧ tunnelMappingID req ts = req.MappingID :=
+    ∃ cc, findControlConnection id = some cc ∧ handleTunnelOpenAuth w cc.clientID req = true ∧
+      tunnelMappingID req ts = req.MappingID :=
   passed_of_not_refused_dyn (late := .none) h
+
+/-- The client id of the control connection the dispatcher works with, when not 0, is the client the connection
+is authenticated as. -/
+theorem proven_of_control {id : ConnIdent} {cc : ClientConn} (hwf : identWF id = true)
+    (hf : findControlConnection id = some cc) (hne : cc.clientID ≠ 0) : provenClient id = cc.clientID := by
+  unfold findControlConnection at hf
+  unfold provenClient
+  by_cases hc : id.hasControl = true
+  · simp [hc] at hf
+    subst hf
+    unfold identWF at hwf
+    simp at hne
+    simp [hne] at hwf
+    simp [hc, hwf]
+  · by_cases ht : id.tempOK = true
+    · simp [hc, ht] at hf
+      subst hf
+      simp [hc, ht]
+    · simp [hc, ht] at hf
 
 /-- On the polling branch an attachment (or traffic) presupposes that the tunnel that appeared belongs to the
 mapping of the request. -/
@@ -124,39 +146,37 @@ theorem dyn_none_cases (w : World) (id : ConnIdent) (req : Req) (late : Late) :
     openTunnelDyn w id req .none late = refuse ∨
     openTunnelDyn w id req .none late = handleSourceBridge late ∨
     openTunnelDyn w id req .none late = handleTargetBridge w req late := by
-  unfold openTunnelDyn findControlConnection
+  unfold openTunnelDyn
   by_cases hw : req.wellFormed = true
-  · by_cases hc : id.hasControl = true
-    · by_cases ha : handleTunnelOpenAuth w id.clientID req = true
-      · by_cases hs : isSourceClient w id req = true
-        · right; left; simp [hw, hc, ha, hs]
-        · right; right; simp [hw, hc, ha, hs]
-      · left; simp [hw, hc, ha]
-    · left; simp [hw, hc]
+  · cases hf : findControlConnection id with
+    | none => left; simp [hw]
+    | some cc =>
+      by_cases ha : handleTunnelOpenAuth w cc.clientID req = true
+      · by_cases hs : isSourceClient w id cc req = true
+        · right; left; simp [hw, ha, hs]
+        · right; right; simp [hw, ha, hs]
+      · left; simp [hw, ha]
   · left; simp [hw]
 
 /-- Passing the checks means being entitled in the sense of the property. -/
-theorem entitled_of_passed {w : World} {id : ConnIdent} {req : Req} {ts : TunnelState}
-    (hwf : identWF id = true) (hc : id.hasControl = true)
-    (ha : handleTunnelOpenAuth w id.clientID req = true)
+theorem entitled_of_passed {w : World} {id : ConnIdent} {req : Req} {ts : TunnelState} {cc : ClientConn}
+    (hwf : identWF id = true) (hf : findControlConnection id = some cc)
+    (ha : handleTunnelOpenAuth w cc.clientID req = true)
     (hm : tunnelMappingID req ts = req.MappingID) : entitledB w id req ts = true := by
   obtain ⟨m, hfound, hne, husable, hcred⟩ := auth_sound ha
-  have hauth : id.authenticated = true := by
-    unfold identWF at hwf
-    simp [hne] at hwf
-    exact hwf
+  have hp : provenClient id = cc.clientID := proven_of_control hwf hf hne
   have hid : m.ID = req.MappingID := getPortMapping_id hfound
   unfold entitledB
-  rw [hm, hfound]
-  have hne' : (id.clientID != 0) = true := by simp [hne]
-  simp only [hc, hauth, husable, hne', Bool.true_and]
+  rw [hm, hfound, hp]
+  have hne' : (cc.clientID != 0) = true := by simp [hne]
+  simp only [husable, hne', Bool.true_and]
   rcases hcred with ⟨_, hl⟩ | ⟨hs, hk, hlt⟩
   · have h1 : (req.MappingID == m.ID) = true := by simp [hid]
-    have h2 : (id.clientID == m.ListenClientID) = true := by simp [hl]
+    have h2 : (cc.clientID == m.ListenClientID) = true := by simp [hl]
     rw [h1, h2]; rfl
   · have h1 : (req.SecretKey != "") = true := by simp [hs]
     have h2 : (req.SecretKey == m.SecretKey) = true := by simp [hk]
-    have h3 : (id.clientID == m.ListenClientID || id.clientID == m.TargetClientID) = true := by
+    have h3 : (cc.clientID == m.ListenClientID || cc.clientID == m.TargetClientID) = true := by
       rcases hlt with hl | htg
       · simp [hl]
       · simp [htg]
